@@ -26,7 +26,7 @@ func register(r *Rule) {
 
 type options struct {
 	prop, tier, repo, verif, only, replay string
-	noFixture, list, dump                 bool
+	noFixture, list, dump, noEvidence     bool
 	expect                                string
 }
 
@@ -42,6 +42,7 @@ func main() {
 	flag.BoolVar(&o.noFixture, "nofixture", false, "skip fixture self-test")
 	flag.BoolVar(&o.list, "list", false, "list properties and rules")
 	flag.BoolVar(&o.dump, "dump", false, "print every obligation")
+	flag.BoolVar(&o.noEvidence, "noevidence", false, "do not write the evidence file (used when analysing a modified tree)")
 	flag.Parse()
 	if env := os.Getenv("VERIF_TIER"); env != "" && !isFlagSet("tier") {
 		o.tier = env
@@ -320,6 +321,9 @@ func writeReplay(o options, prop string, n int, ob *Ob) string {
 }
 
 func writeEvidence(o options, ps *PropSpec, seed int, start time.Time, p *Prog, obs []*Ob, stats map[string]*RuleStat, nviol int, known []string, extra map[string]interface{}) {
+	if o.noEvidence {
+		return
+	}
 	dir := filepath.Join(o.verif, "evidence")
 	os.MkdirAll(dir, 0o755)
 	cov := map[string]interface{}{}
